@@ -23,6 +23,16 @@ def self_attr(e: ast.AST) -> Optional[str]:
     return None
 
 
+def sattr(g: CFG, e: Optional[ast.AST]) -> Optional[str]:
+    """Like self_attr, but a single-assignment local alias (`cache = self._x`) counts as the attribute."""
+    if e is None:
+        return None
+    p_ = g.res.path(e)
+    if p_ and p_.startswith('self.') and '.' not in p_[5:]:
+        return p_[5:]
+    return None
+
+
 class BatcherRoles:
     def __init__(self, ctx: Ctx):
         p = ctx.program
@@ -59,13 +69,13 @@ class BatcherRoles:
         queues = [a for a, v in self.attr_ctor.items() if (kind(v) or '').startswith('asyncio.') and (kind(v) or '').endswith('Queue')]
         self.workq = queues[0] if queues else None
         self.call = p.func(FILE, f'{cls.qualname}.__call__')
-        gc = build(self.call, p)
+        gc = build(self.call, p, inline_methods=True)
         self.gcall = gc
         # RET: dict attribute subscripted in __call__
         self.ret = None
         for n in gc.nodes:
             if n.kind in ('load_sub', 'store_sub'):
-                a = self_attr(n.ast.value)
+                a = sattr(gc, n.ast.value)
                 if a and isinstance(self.attr_ctor.get(a), (ast.Dict, ast.Call)):
                     self.ret = a
         # methods by behaviour
@@ -89,9 +99,9 @@ class BatcherRoles:
         missing = [k for k in ('workq', 'ret', 'process', 'assemble', 'dispatch') if getattr(self, k) is None]
         if missing:
             raise AnalysisError(f'batcher roles not found: {missing}')
-        self.gproc = build(self.process, p)
-        self.gasm = build(self.assemble, p)
-        self.gdisp = build(self.dispatch, p)
+        self.gproc = build(self.process, p, inline_methods=True)
+        self.gasm = build(self.assemble, p, inline_methods=True)
+        self.gdisp = build(self.dispatch, p, inline_methods=True)
         # in PROCESS: BATCHCALL loop, BATCHFUTS dict
         g = self.gproc
         self.batchcall = next(n for n in g.nodes if n.kind == 'for_iter' and n.meta.get('is_async')
@@ -136,15 +146,15 @@ def _future_vars(r: 'BatcherRoles') -> Set[str]:
             continue
         rv = resolve(gc, n, v)
         txt_nodes = list(ast.walk(rv)) if rv is not None else []
-        reads_ret = any(self_attr(x) == r.ret for x in txt_nodes)
+        reads_ret = any(sattr(gc, x) == r.ret for x in txt_nodes if isinstance(x, (ast.Attribute, ast.Name)))
         makes = any(isinstance(x, ast.Attribute) and x.attr == 'create_future' for x in txt_nodes)
-        stored = isinstance(st, ast.Assign) and any(isinstance(t, ast.Subscript) and self_attr(t.value) == r.ret for t in st.targets)
+        stored = isinstance(st, ast.Assign) and any(isinstance(t, ast.Subscript) and sattr(gc, t.value) == r.ret for t in st.targets)
         if reads_ret or stored:
             out.add(n.meta['name'])
         elif makes:
             # a created future counts once it is stored in the cache under some name
             nm = n.meta['name']
-            if any(x.kind == 'store_sub' and self_attr(x.ast.value) == r.ret and isinstance(x.meta.get('value'), ast.Name)
+            if any(x.kind == 'store_sub' and sattr(gc, x.ast.value) == r.ret and isinstance(x.meta.get('value'), ast.Name)
                    and x.meta['value'].id == nm for x in gc.nodes):
                 out.add(nm)
     return out
@@ -328,12 +338,13 @@ def c04(ctx: Ctx) -> None:
 
 def _rule_dispatch(ctx: Ctx, r: BatcherRoles, rule: str) -> None:
     gd = r.gdisp
-    spawn = [n for n in gd.nodes if n.kind == 'call' and any(
-        isinstance(a, ast.Call) and callee_info(gd, a)['kind'] == 'package' and r.process in callee_info(gd, a).get('scopes', [])
-        for a in n.ast.args)]
+    def is_process_call(a) -> bool:
+        return isinstance(a, ast.Call) and self_attr(a.func) == r.process.name
+    spawn = [n for n in gd.nodes if n.kind == 'call' and any(is_process_call(resolve(gd, n, a)) for a in n.ast.args)
+             and not is_process_call(n.ast)]
     awaited = [n for n in gd.nodes if n.kind == 'await' and isinstance(n.ast.value, ast.Call) and (
-        (callee_info(gd, n.ast.value)['kind'] == 'package' and r.process in callee_info(gd, n.ast.value).get('scopes', []))
-        or any(n.ast.value is s.ast for s in spawn))]
+        is_process_call(n.ast.value) or any(n.ast.value is s.ast for s in spawn))]
+    awaited += [n for n in gd.nodes if n.kind == 'inline_enter' and n.meta.get('name') == r.process.qualname]
     ctx.check(rule, f'dispatcher starts the batch task with {[norm(s.ast.func) for s in spawn]}', f'{FILE}:{r.dispatch.lineno}',
               bool(spawn) and not awaited, 'spawned, not awaited: a failing or slow batch cannot stop the dispatcher',
               'the dispatcher awaits the batch (batches are serialised; a failing batch kills the dispatcher)',
@@ -403,7 +414,7 @@ def c09(ctx: Ctx) -> None:
     shared = _future_vars(r)
     r1_ok = True
     sites = 0
-    hit_edges = [e for x in gc.nodes if x.kind == 'load_sub' and self_attr(x.ast.value) == r.ret
+    hit_edges = [e for x in gc.nodes if x.kind == 'load_sub' and sattr(gc, x.ast.value) == r.ret
                  for e in gc.succ[x.id] if e.label != 'exc']
     on_hit = reach(gc, [], start_edges=hit_edges)
     for n in gc.nodes:
@@ -710,35 +721,14 @@ def c11(ctx: Ctx) -> None:
     ctx.rule('C11-R4', 'no RET mutation is reachable on the hit path', 1)
     ctx.rule('C11-R5', 'the default key is str(arg), an explicit key is used unchanged', 1)
     RET = r.ret
-    lookups = [n for n in g.nodes if n.kind == 'load_sub' and self_attr(n.ast.value) == RET]
-    stores = [n for n in g.nodes if n.kind == 'store_sub' and self_attr(n.ast.value) == RET]
-    miss = [e for n in lookups for e in g.succ[n.id] if e.label == 'exc']
-    hit = [e for n in lookups for e in g.succ[n.id] if e.label != 'exc']
-    # `x = RET.get(key)` + a None test on x is an equivalent lookup form
-    for n in g.nodes:
-        if n.kind == 'store_name' and isinstance(n.meta.get('value'), ast.Call) and isinstance(n.meta['value'].func, ast.Attribute) \
-                and n.meta['value'].func.attr == 'get' and self_attr(n.meta['value'].func.value) == RET and len(n.meta['value'].args) == 1:
-            var = n.meta['name']
-            for b in g.nodes:
-                if b.kind != 'branch':
-                    continue
-                t = b.meta['test']
-                none_edge = None
-                if isinstance(t, ast.Compare) and len(t.ops) == 1 and isinstance(t.left, ast.Name) and t.left.id == var \
-                        and isinstance(t.comparators[0], ast.Constant) and t.comparators[0].value is None:
-                    none_edge = 'true' if isinstance(t.ops[0], ast.Is) else 'false' if isinstance(t.ops[0], ast.IsNot) else None
-                elif isinstance(t, ast.Name) and t.id == var:
-                    none_edge = 'false'
-                if none_edge:
-                    lookups.append(n)
-                    miss += [e for e in g.succ[b.id] if e.label == none_edge]
-                    hit += [e for e in g.succ[b.id] if e.label != none_edge and e.label in ('true', 'false')]
+    lookups, miss, hit, lkeys = table_lookups(g, lambda e: sattr(g, e) == RET)
+    stores = [n for n in g.nodes if n.kind == 'store_sub' and sattr(g, n.ast.value) == RET]
     if not lookups or not stores:
         ctx.violation('C11-R1', 'no lookup-or-create of a per-key future', f'{FILE}:{r.call.lineno}',
                       'every call adds work: a batch can carry a key twice', construct=construct_key(r.call.qualname, 'no lookup-or-create'))
         r.publish(ctx)
         return
-    keyv = {norm(n.ast.slice) if n.kind != 'store_name' else norm(n.meta['value'].args[0]) for n in lookups + stores}
+    keyv = {norm(k) for k in lkeys} | {norm(n.ast.slice) for n in stores}
     # R1
     for s in stores:
         w = None
@@ -779,15 +769,15 @@ def c11(ctx: Ctx) -> None:
     if not puts:
         ctx.violation('C11-R2', 'nothing is enqueued', f'{FILE}:{r.call.lineno}', construct=construct_key(r.call.qualname, 'no enqueue'))
     # R3
-    evict_now = [n for n in g.nodes if (n.kind == 'del_sub' and self_attr(n.ast.value) == RET and norm(n.ast.slice) in keyv)
+    evict_now = [n for n in g.nodes if (n.kind == 'del_sub' and sattr(g, n.ast.value) == RET and norm(n.ast.slice) in keyv)
                  or (n.kind == 'call' and isinstance(n.ast.func, ast.Attribute) and n.ast.func.attr == 'pop'
-                     and self_attr(n.ast.func.value) == RET)]
+                     and sattr(g, n.ast.func.value) == RET)]
     evict_later = []
     for n in g.nodes:
         if n.kind == 'call' and isinstance(n.ast.func, ast.Attribute) and n.ast.func.attr == 'call_later':
             a = n.ast.args
             ok = len(a) >= 3 and self_attr(a[0]) == 'retention_timeout' and isinstance(a[1], ast.Attribute) \
-                and a[1].attr == 'pop' and self_attr(a[1].value) == RET and norm(a[2]) in keyv
+                and a[1].attr == 'pop' and sattr(g, a[1].value) == RET and norm(a[2]) in keyv
             if ok:
                 evict_later.append(n)
             else:
@@ -850,7 +840,7 @@ def c11(ctx: Ctx) -> None:
     for n in g.nodes:
         if n.kind == 'branch' and norm(n.meta['test']) in (f'{keyparam} is None',):
             te = [e for e in g.succ[n.id] if e.label == 'true']
-            st = [x for x in g.nodes if x.kind == 'store_name' and x.meta['name'] == keyparam]
+            st = [x for x in g.nodes if x.kind == 'store_name' and x.meta['name'] == keyparam and not x.meta.get('inlined_param')]
             ok = len(st) == 1 and norm(st[0].meta['value']) == 'str(arg)' and find_path(g, [], st, start_edges=te) is not None \
                 and find_path(g, [], st, start_edges=[e for e in g.succ[n.id] if e.label == 'false']) is None
     ctx.check('C11-R5', 'if key is None: key = str(arg)', f'{FILE}:{r.call.lineno}', ok, 'default key only when none given',
@@ -897,7 +887,7 @@ def c15(ctx: Ctx) -> None:
         g = build(d, p)
         first = d.node.args.args[0].arg
         kwonly = [a.arg for a in d.node.args.kwonlyargs]
-        br = [n for n in g.nodes if n.kind == 'branch' and norm(n.meta['test']) == f'{first} is None']
+        br = [n for n in g.nodes if n.kind == 'branch' and norm(n.meta['test']) in (f'{first} is None', f'{first} is not None')]
         if not br:
             if not any(isinstance(x, ast.Call) and (g.res.path(x.func) or '').endswith('partial') for x in ast.walk(d.node)):
                 # the decorator simply requires func (e.g. buffer_until_timeout overloads) -> idiom left
@@ -905,10 +895,11 @@ def c15(ctx: Ctx) -> None:
                               'the decorator-with-options form is not supported any more',
                               construct=construct_key(d.qualname, 'no option form'))
             continue
-        te = [e for e in g.succ[br[0].id] if e.label == 'true']
+        none_label = 'true' if norm(br[0].meta['test']).endswith('is None') else 'false'
+        te = [e for e in g.succ[br[0].id] if e.label == none_label]
         reached = reach(g, [], start_edges=te)
         rets = [n for n in g.nodes if n.kind == 'return' and n.id in reached and find_path(g, [], [n], start_edges=te) is not None
-                and find_path(g, [], [n], start_edges=[e for e in g.succ[br[0].id] if e.label == 'false']) is None]
+                and find_path(g, [], [n], start_edges=[e for e in g.succ[br[0].id] if e.label != none_label]) is None]
         for rn in rets:
             v = rn.ast.value
             if not (isinstance(v, ast.Call) and (g.res.path(v.func) or '') == 'functools.partial'):
